@@ -50,6 +50,10 @@ CHECKS = {
          "The real CONNECT path of proxy.go runs over simnet under the gosim scheduler: all early-data placements x chunk lists in both directions at once x who finishes first x full/half close x direct or downstream-proxy route x request/response conversations; every schedule with <=2 (quick) / <=3 (thorough) deviations; oracle at the first quiescent point with zero virtual time elapsed: exact byte streams, prompt EOF on the other end, both connections released.",
          "simnet models TCP semantics (coalescing reads, FIN, write-after-close); pauses are interleavings; sizes up to 32769 bytes (1 MiB thorough).",
          "stateless schedule enumeration of the implementation (gosim) with deviation bounding and virtual time", "gosim", "DESIGN.md §7 C04"),
+ "C18": ("model_checking",
+         "The real proxy serves a trafficshape.Listener over simnet under the gosim scheduler with virtual time (bucket spin loops are parked by the engine until a drain tick): close actions at offsets {0,1,n-1,n,n+1,5000,6000}+range start x sizes {0,1,600,4095,4096,4097,10000} x range starts {0,1,4096} x body read chunkings; halts and throttles (single, adjacent, gap, max bandwidth), latency, non-matching URL; counts {1,2,-1} over sequential and concurrent connections; reconfiguration after accept and in flight (schedule exploration finds lock-order deadlocks); 26 invalid configurations; oracle = reference model of delivered bytes, cut position, minimum virtual delay, count consumption, unchanged shaping after a rejected configuration, bucket threads released.",
+         "Virtual time advances only at quiescence (timers due now fire eagerly); Content-Length framing only.",
+         "bounded-exhaustive configuration/input enumeration + schedule enumeration (gosim) with virtual time", "gosim", "DESIGN.md §7 C18"),
  "C19": ("model_checking",
          "Part 1: exhaustive message shapes x body sizes x consumer read-buffer sequences x early close x body errors logged through the real marbl Stream/Modifier (inside gosim executions), frames re-parsed with marbl.Reader and an independent parser. Part 2: 2-3 threads logging concurrently to one stream under the gosim scheduler (all interleavings for the small scenarios, deviation-bounded for the rest): whole-frame writes, contiguous ordered data indices, no deadlock. Part 3: frame-grammar byte strings with every length field from {0,1,2,2^31-1,2^31,2^32-2,2^32-1}, truncation at every offset, and all short strings over a 6-byte alphabet fed to marbl.Reader in memory-capped worker processes.",
          "Concurrent Reads of one body are out of scope; the agent-written explorer branches only after the sequential set-up phase.",
